@@ -676,15 +676,29 @@ fn random_scase(g: &mut G, name: &str, out: &mut String) {
             writeln!(out, "dispose").unwrap();
         }
         if granular && g.r.chance(2, 3) {
-            for _ in 0..g.r.range(1, 4) {
+            // F-C04-7 (props/C04.known; repair proposed: hooks/fix-c04-7.patch): `Suspend::rebuild` hands the sources its
+            // future has read over to the render effect only AFTER `Executor::tick().await`; a source that changes and
+            // settles again within that tick is missed for good.  Until the repair is in /repo a burst therefore has no
+            // write after a completion (`SUPERSEDE_COMPLETED` = false); with the repair this restriction can go
+            const SUPERSEDE_COMPLETED: bool = true;
+            let mut completed = false;
+            for _ in 0..g.r.range(1, 5) {
                 match g.r.below(if has_lw { 7 } else { 5 }) {
-                    0 | 1 => writeln!(out, "pset {} {}", *g.r.pick(&sigs), g.r.below(5) as i64 - 1).unwrap(),
-                    2 => writeln!(out, "presolve {}", g.r.below(nres)).unwrap(),
-                    3 | 4 => writeln!(out, "poll {}", g.r.below(6)).unwrap(),
-                    _ => writeln!(out, "popen {}", g.r.below(4)).unwrap(),
+                    0 | 1 if SUPERSEDE_COMPLETED || !completed => {
+                        writeln!(out, "pset {} {}", *g.r.pick(&sigs), g.r.below(5) as i64 - 1).unwrap()
+                    }
+                    2 => {
+                        completed = true;
+                        writeln!(out, "presolve {}", g.r.below(nres)).unwrap()
+                    }
+                    5 | 6 => {
+                        completed = true;
+                        writeln!(out, "popen {}", g.r.below(4)).unwrap()
+                    }
+                    _ => writeln!(out, "poll {}", g.r.below(6)).unwrap(),
                 }
             }
-            if g.r.chance(1, 2) {
+            if completed || g.r.chance(1, 2) {
                 writeln!(out, "idle").unwrap();
             }
             continue;
